@@ -38,6 +38,51 @@ def build_instrumented(binary):
 
 
 # ----------------------------------------------------------------------------------------------
+# third harness binary: the plain harness built with the Go race detector (needs cgo + a C compiler; skipped with a note
+# otherwise).  Runtime oracle only: unsynchronised access between Bridge.Start and Bridge.Close is a Go-memory-model fact
+# (a torn read of an interface field yields a typed nil that crashes the later Close) that no model at atomic-step
+# granularity carries.
+# ----------------------------------------------------------------------------------------------
+
+def race_detector_oracle(ctx, thorough):
+    import shutil
+    import tempfile
+    if not shutil.which("gcc") and not shutil.which("cc"):
+        return {"skipped": "no C compiler: go build -race unavailable"}
+    ovp = os.path.join(vlib.BUILD, "overlay_c16%s.json" % vlib._repo_tag())
+    out = os.path.join(vlib.BUILD, "bin", "verif_c16r" + vlib._repo_tag())
+    env = dict(vlib.GOENV)
+    env["CGO_ENABLED"] = "1"
+    rc, so, se = vlib.sh(["go", "build", "-race", "-tags", vlib.GUARD, "-overlay", ovp, "-o", out, "./cmd/verif_c16"],
+                         cwd=vlib.REPO, env=env, timeout=900)
+    if rc != 0:
+        return {"skipped": "go build -race failed: " + (so + se)[-300:]}
+    m = 10 if thorough else 1
+    cases = [{"mode": "bridge_startrace", "k": 1, "trials": 250 * m}, {"mode": "bridge_startrace", "k": 2, "trials": 250 * m, "started": True},
+             {"mode": "bridge_race", "k": 3, "trials": 30 * m, "started": True, "own": True}]
+    d = tempfile.mkdtemp(prefix="c16race_")
+    try:
+        outs = vlib.run_harness(out, cases, timeout=900, env={"GORACE": "halt_on_error=0 exitcode=0 log_path=%s/r" % d})
+        text = ""
+        for fn in sorted(os.listdir(d)):
+            text += open(os.path.join(d, fn), errors="replace").read()
+    finally:
+        shutil.rmtree(d, ignore_errors=True)
+    reports = [r for r in text.split("==================") if "DATA RACE" in r]
+    mine = [r for r in reports if "tunnel.(*Bridge).Start()" in r and "tunnel.(*Bridge).Close()" in r]
+    for c, o in zip(cases, outs):
+        if not o["prop_ok"]:
+            ctx.violation(o["key"], "real code under the race detector, mode %s: %s" % (c["mode"], o["prop_msg"]), {"case": c, "observed": o})
+    if mine:
+        lines = [l.strip() for l in mine[0].splitlines() if "internal/protocol/session/tunnel" in l or l.startswith(("Read at", "Write at", "Previous"))]
+        ctx.violation("bridge-start-close-data-race",
+                      "go build -race harness, Bridge.Close racing with the wake-up of Bridge.Start: %d data race report(s) between "
+                      "(*Bridge).Start and (*Bridge).Close on the forwarder / connection / stream fields; first: %s"
+                      % (len(mine), " | ".join(lines[:8])), {"case": cases[0], "race_reports": len(mine), "first_report": mine[0][:3000]})
+    return {"trials": sum(o.get("trials", 0) for o in outs), "race_reports_total": len(reports), "race_reports_bridge_start_vs_close": len(mine)}
+
+
+# ----------------------------------------------------------------------------------------------
 # generators
 # ----------------------------------------------------------------------------------------------
 
@@ -123,6 +168,21 @@ TRAFFIC_NEG_WITNESS = {"mode": "traffic_gate", "events": [{"op": "add", "a": 100
                                                          {"op": "step", "a": 0}, {"op": "step", "a": 0}]}
 
 
+def start_close_cases(rng, thorough):
+    """ONE complete Close at every point inside Start: the manager double's Ctx() hook (plain binary) and every statement
+    boundary of the instrumented Start (points beyond the last statement = Close after Start returned)"""
+    cs = [{"mode": "tunnel_start", "point": -1, "reason": r} for r in (2, 0, 3, 5)]
+    for p in range(0, 10):
+        for r in ((2, 0, 5) if thorough else (2, rng.choice([0, 3, 4, 5]))):
+            cs.append({"mode": "tunnel_start", "point": p, "reason": r})
+    return cs
+
+
+def stall_cases(thorough):
+    """Bridge.Close (1-3 concurrent callers) while one forwarding direction is blocked writing to a stalled peer"""
+    return [{"mode": "bridge_stall", "side": side, "k": k} for side in (0, 1) for k in ((1, 2, 3) if thorough else (1, 3))]
+
+
 def race_cases(rng, thorough):
     m = 25 if thorough else 1
     cs = []
@@ -135,6 +195,7 @@ def race_cases(rng, thorough):
     cs += [{"mode": "dispose_race", "handlers": [[0, 0], [1, 1], [2, 0], [3, 1]], "k": k, "trials": 250 * m} for k in (2, 8)]
     cs += [{"mode": "bridge_race", "k": 4, "trials": 60 * m, "started": True, "own": True},
            {"mode": "bridge_race", "k": 8, "trials": 60 * m}]
+    cs += [{"mode": "bridge_startrace", "k": 2, "trials": 150 * m}, {"mode": "bridge_startrace", "k": 3, "trials": 150 * m, "started": True}]
     cs += [{"mode": "stream_race", "k": 4, "trials": 300 * m}]
     cs += [{"mode": "storage_race", "k": 4, "trials": 60 * m}]
     cs += [{"mode": "session_race", "k": 4, "trials": 20 * m}]
@@ -151,8 +212,18 @@ def zenc(z):
     return [z < 0, abs(z)]
 
 
-def case_value(c, o, tunnel_fixed, traffic_fixed, stream_fixed=True):
+def case_value(c, o, tunnel_fixed, traffic_fixed, stream_fixed=True, start_ctx_first=True, start_spawns=3, writer_holds=False):
     m = c["mode"]
+    if m == "tunnel_start":
+        sd = o["steps_done"]
+        if sd == -1:       # Close landed inside manager.Ctx(), i.e. in the argument evaluation of the SetCtx statement
+            sd = 0 if start_ctx_first else 1
+        elif sd == -2:     # Start had returned before the point was reached
+            sd = start_spawns + 4
+        return [5, start_ctx_first, start_spawns, sd, [o["state"], o["on_closed"], 1 if o["start_ok"] else 0, 1 if o["left"] else 0]]
+    if m == "bridge_stall":
+        # only the target->source direction goes through dynamicSourceWriter; the source->target copy holds no lock
+        return [6, bool(writer_holds) and c["side"] == 0, max(1, c.get("k", 1)), bool(o["close_returned"])]
     if m == "dispose_hist":
         res = [None if r is None else [list(r)] for r in o["results"]]
         return [0, [list(h) for h in c["handlers"]], o["closers"], [list(a) for a in o["adds"]], list(o["sched"]),
@@ -185,12 +256,14 @@ def run(ctx, only_cases=None):
     flag = lambda name: re.search(r"Definition %s : bool := (true|false)\." % name, gen_text).group(1) == "true"
     tunnel_fixed, traffic_fixed = flag("TunnelCloseCasRetried"), flag("TrafficReportSerialised")
     stream_fixed = not flag("StreamCloseNilsReader")
+    start_ctx_first, writer_holds = flag("TunnelStartSetCtxBeforeCas"), flag("SourceWriterHoldsLockAcrossWrite")
+    start_spawns = int(re.search(r"Definition TunnelStartSpawns : nat := (\d+)\.", gen_text).group(1))
     broken = None
     try:
         pinfo = vlib.coq_properties("C16")
         vlib.coq_make(["Proofs/SideC16.vo"])
         vlib.proof_coverage(ctx, pinfo, "make -C coq Properties/C16.vo Proofs/SideC16.vo && coqc Properties/C16.v (Print Assumptions audit)",
-                            extra_obligations=5)
+                            extra_obligations=7)
     except vlib.Broken as b:
         broken = b
     ibin = None
@@ -213,9 +286,12 @@ def run(ctx, only_cases=None):
         cases += [gen_tunnel_seq(ctx.rng) for _ in range(1500 if thorough else 150)]
         cases += [gen_traffic_gate(ctx.rng) for _ in range(3000 if thorough else 250)]
         cases += tunnel_sched_cases(ctx.rng, thorough)
+        cases += start_close_cases(ctx.rng, thorough)
+        cases += stall_cases(thorough)
         cases += race_cases(ctx.rng, thorough)
-    plain = [c for c in cases if c["mode"] != "tunnel_sched"]
-    instr = [c for c in cases if c["mode"] == "tunnel_sched"]
+    is_instr = lambda c: c["mode"] == "tunnel_sched" or (c["mode"] == "tunnel_start" and c["point"] >= 0)
+    plain = [c for c in cases if not is_instr(c)]
+    instr = [c for c in cases if is_instr(c)]
     outs = {}
     for c, o in zip(plain, vlib.run_harness(binary, plain, timeout=2400, env={"VERIF_REPO": vlib.REPO})):
         outs[id(c)] = o
@@ -237,12 +313,15 @@ def run(ctx, only_cases=None):
                     key += ":on-repaired-tree"
                 ctx.violation(key, "real code, mode %s: %s" % (c["mode"], o["prop_msg"]), {"case": c, "observed": o})
     leaks = [(c, o) for c, o in done if o.get("leak")]
+    race_info = race_detector_oracle(ctx, thorough) if only_cases is None else {"skipped": "replay"}
 
     # ---- model vs implementation on the deterministic modes ----
     # stream_gate reads=1 parks inside io.ReadFull, which holds its own copy of the reader: outside the model's granularity
-    det = [(c, o) for c, o in done if c["mode"] in ("dispose_hist", "tunnel_seq", "tunnel_sched", "traffic_gate", "stream_gate")
+    det = [(c, o) for c, o in done if c["mode"] in ("dispose_hist", "tunnel_seq", "tunnel_sched", "traffic_gate", "stream_gate",
+                                                     "tunnel_start", "bridge_stall") and "steps_done" in (o if c["mode"] == "tunnel_start" else {"steps_done": 0})
+           and o.get("key") != "bridge-stall-setup"
            and not (c["mode"] == "stream_gate" and c["reads"] < 2) and o.get("key") not in ("dispose-hang", "tunnel-hang", "traffic-hang", "stream-gate-hang")]
-    terms = [case_value(c, o, tunnel_fixed, traffic_fixed, stream_fixed) for c, o in det]
+    terms = [case_value(c, o, tunnel_fixed, traffic_fixed, stream_fixed, start_ctx_first, start_spawns, writer_holds) for c, o in det]
     mism = []
     try:
         res = vlib.model_eval("C16", terms)
@@ -260,8 +339,8 @@ def run(ctx, only_cases=None):
         c, o = det[i]
         if o["prop_ok"] or o["key"] in ctx.known:
             ctx.violation("model-mismatch:" + c["mode"],
-                          "Corr/C16.check: the Shutdown model (variant tunnel_fixed=%s traffic_fixed=%s stream_fixed=%s) and the real code disagree on a replayed "
-                          "%s history" % (tunnel_fixed, traffic_fixed, stream_fixed, c["mode"]), {"case": c, "observed": o}, found_input=not o["prop_ok"])
+                          "Corr/C16.check: the Shutdown model (variant tunnel_fixed=%s traffic_fixed=%s stream_fixed=%s start_ctx_first=%s writer_holds_lock=%s) "
+                          "and the real code disagree on a replayed %s history" % (tunnel_fixed, traffic_fixed, stream_fixed, start_ctx_first, writer_holds, c["mode"]), {"case": c, "observed": o}, found_input=not o["prop_ok"])
 
     # ---- coverage ----
     nontriv = set()
@@ -280,9 +359,13 @@ def run(ctx, only_cases=None):
             starts = {e["a"] for e in c["events"] if e["op"] == "start"}
             if len(starts) >= 2 and any(e["op"] == "add" and e["a"] > 0 for e in c["events"]):
                 nontriv.add(json.dumps(c, sort_keys=True))
-    trials = sum(o.get("trials", 0) for c, o in done if c["mode"].endswith("_race"))
+        elif c["mode"] == "tunnel_start" and o.get("closed_inside"):
+            nontriv.add(json.dumps(c, sort_keys=True))
+        elif c["mode"] == "bridge_stall":
+            nontriv.add(json.dumps(c, sort_keys=True))
+    trials = sum(o.get("trials", 0) for c, o in done if c["mode"].endswith("race"))
     samples = []
-    for mode in ("dispose_hist", "tunnel_sched", "traffic_gate", "tunnel_race"):
+    for mode in ("dispose_hist", "tunnel_sched", "traffic_gate", "tunnel_start", "bridge_stall", "tunnel_race"):
         for c, o in done:
             if c["mode"] == mode:
                 samples.append({"case": c, "observed": {k: v for k, v in o.items() if k not in ("prop_msg",)}})
@@ -293,18 +376,22 @@ def run(ctx, only_cases=None):
                 "(close/release-handler/add events; random + every event sequence up to length %d over {close0, close1, release, add}), "
                 "Tunnel.Close sequential histories, Tunnel.Close park schedules on a statement-instrumented copy of the working tree's Close "
                 "(every subset of 2-3 closers parked between Load and CAS x every release order x both start states), reportTrafficStats "
-                "histories through a cloud-control double that parks every call. non-trivial = at least two closers/reporters really "
-                "interleave (>=2 closes or close+add; >=2 parked closers; >=2 sequential ops; >=2 started reporters with a positive add); "
+                "histories through a cloud-control double that parks every call, ONE complete Close at every point inside Tunnel.Start (the "
+                "manager double's Ctx() accessor + every statement boundary of the instrumented Start), Bridge.Close by 1-3 callers while a "
+                "forwarding write is blocked on a stalled source / target peer (watchdog 3 s). non-trivial = at least two closers/reporters really "
+                "interleave (>=2 closes or close+add; >=2 parked closers; >=2 sequential ops; >=2 started reporters with a positive add; a Close that really landed inside Start; every stalled-peer case); "
                 "distinct by the full case. Contention loops (K goroutines behind a barrier, exactly-once counters, goroutine-dump diff) are "
                 "counted separately in contention_trials." % (6 if thorough else 4),
         "samples": samples,
         "contention_trials": trials,
+        "race_detector_oracle": race_info,
         "model_vs_impl_cases": len(terms), "model_vs_impl_mismatches": len(mism), "impl_property_failures": nfail,
         "impl_property_failures_by_key": per_key,
         "goroutine_leak_reports": [o["leak"] for c, o in leaks][:5],
         "input_distribution": dist,
         "tree_variant": {"tunnel_close_cas_retried": tunnel_fixed, "traffic_report_serialised": traffic_fixed,
-                         "stream_onclose_keeps_reader": stream_fixed},
+                         "stream_onclose_keeps_reader": stream_fixed,
+                         "start_setctx_before_cas": start_ctx_first, "source_writer_holds_lock_across_write": writer_holds},
         "tunnel_race_double_bodies_seen": sum(o.get("doubles", 0) for c, o in done if c["mode"] == "tunnel_race"),
         "generated_file_changed": gen_changed,
     })
